@@ -215,4 +215,36 @@ theorem rescale_sum_err (D S : Int) (hS : 0 < S) (xs : List Int) :
       _ = ((xs.length : Int) + 1) * S := by ring
       _ = _ := by push_cast; ring
 
+/-! ### minimum level for the refresh, exact arithmetic -/
+
+theorem le_two_pow_clog2 (n : Nat) : n ≤ 2 ^ clog2 n := by
+  unfold clog2
+  split
+  · omega
+  · have := Nat.lt_log2_self (n := n - 1)
+    omega
+
+theorem primesNeeded_sound : ∀ (qs : List Nat) (bound acc k : Nat),
+    primesNeeded bound acc qs = some k →
+      bound ≤ acc * (qs.take k).prod ∧ (0 < k → acc * (qs.take (k - 1)).prod < bound)
+  | [], bound, acc, k, h => by
+      unfold primesNeeded at h
+      split at h
+      · cases h; simp; omega
+      · simp at h
+  | q :: rest, bound, acc, k, h => by
+      unfold primesNeeded at h
+      split at h
+      · cases h; simp; omega
+      · rename_i hlt
+        simp only [Option.map_eq_some_iff] at h
+        obtain ⟨k', hk', rfl⟩ := h
+        obtain ⟨h1, h2⟩ := primesNeeded_sound rest bound (acc * q) k' hk'
+        refine ⟨by simpa [List.take_succ_cons, Nat.mul_assoc] using h1, fun _ => ?_⟩
+        rcases Nat.eq_zero_or_pos k' with rfl | hpos
+        · simp; omega
+        · have := h2 hpos
+          obtain ⟨j, rfl⟩ : ∃ j, k' = j + 1 := ⟨k' - 1, by omega⟩
+          simpa [List.take_succ_cons, Nat.mul_assoc] using this
+
 end Lattigo.MP
